@@ -39,7 +39,7 @@ def check(repo, res, tier):
     from .common import borrow
     res.rule('C03.Q4', 'adopted C14.G2: the per-edge volumes a task waits for (Task.io) are those of its own in-edges, in a '
                        'dictionary of its own')
-    borrow(repo, res, tier, c14, {'C14.G2'}, 'C03.Q4')
+    borrow(repo, res, tier, c14, {'C14.G2', 'C14.G5'}, 'C03.Q4')
     res.assumptions += ['exact start equality under concurrency and the one-step visibility of FINISHED are timing facts, not decided',
                         'networkx predecessors() yields exactly the graph predecessors (C14 ties the graph to the workflow)']
     for q in ALGS:
